@@ -38,11 +38,25 @@ def _gen(kind):
             p, a = _setup(kind, rng)
             ev = a.evaluator
             n = len(p.parameters)
+            seen = []
+
+            def design():
+                # interior points, points on / next to a bound, and NEW individuals that repeat the vector of an earlier design
+                r = rng.random()
+                if seen and r < 0.3:
+                    v = list(rng.choice(seen))
+                elif r < 0.6:
+                    v = [rng.choice([pp['bounds'][0], pp['bounds'][1], pp['bounds'][0] + 0.5 * pp['tol'], rng.random()])
+                         for pp in p.parameters]
+                else:
+                    v = [rng.random() for _ in range(n)]
+                seen.append(list(v))
+                return Individual([float(c) for c in v])
             for b in range(rng.randint(0, 3)):        # earlier batches
-                xs = [Individual([rng.random() for _ in range(n)]) for _ in range(rng.randint(1, 3))]
+                xs = [design() for _ in range(rng.randint(1, 3))]
                 a.evaluate(xs)
                 ev.ghost_history.extend(xs)
-            xs = [Individual([rng.random() for _ in range(n)]) for _ in range(rng.randint(1, 3))]
+            xs = [design() for _ in range(rng.randint(1, 3))]
             yield {"call": lambda self, individuals, _a=a: _a.evaluate(individuals), "args": {"self": ev, "individuals": xs},
                    "label": "#%d %s n=%d m=%d earlier=%d batch=%d" % (k, kind, n, len(p.costs) - 1, len(ev.ghost_history), len(xs))}
     gen.__name__ = "c14_" + kind
